@@ -67,6 +67,10 @@ func checkC14(c *Ctx, r *Report) {
 	// type/length byte announces (rules shared with C07, C20)
 	checkIDStringHeader(c, r)
 	checkLatin1Decoders(c, r)
+	// a cancelled reservation (0xC5) restarts the walk only if it reaches the walk: it must be a
+	// final completion code, not one the command layer keeps retrying under the dead reservation
+	// (rule shared with C10)
+	checkTemporaryCodes(c, r)
 
 	walk, mu := c.findSDRWalk()
 	if walk == nil {
